@@ -30,6 +30,12 @@ reg('C19', 'exhaustive token-sequence/string enumeration + Hypothesis expression
     'Cases where floor() lies within the float error bound of a discontinuity and unparenthesised chains mixing \\ with * or / are skipped (counted in evidence). '
     'Which malformed texts must raise is only asserted for foreign characters, a trailing binary operator and an unclosed parenthesis.')
 
+reg('C20', 'exhaustive enumeration of the layer-presence lattice against a reference precedence order; snapshot comparison for immutability',
+    'The complete 2^6 lattice of defining layers × 3 kinds × 23 (type, syntax) pairs (all known syntaxes, xhtml, unknown names) is enumerated in the quick '
+    'tier; the winner is checked on the resolved Config and through expand output, all other keys against a baseline, and deep snapshots of every built-in '
+    'table and caller dictionary are compared after each case. Natural keys of the shipped tables × 2^3 caller layers add the un-injected view. Exhaustive for the stated finite domain.',
+    'Built-in layers are exercised by swapping deep copies of DEFAULT_CONFIG/SYNTAX_CONFIG into emmet.config for one case (restored in finally); `type` is always explicit.')
+
 NOT_APPLICABLE = [
 ]
 
